@@ -259,6 +259,27 @@ func (w *c06World) invariant(tokensBefore map[string]bool) (string, string) {
 					covered[id] = true
 				}
 			}
+			// the index entry lives with the TOKEN (which may belong to the parent namespace), where the revocation of
+			// the token looks for it
+			if l.ClientToken != "" && l.ClientTokenType != logical.TokenTypeBatch {
+				te, err := ts.Lookup(ctx, l.ClientToken)
+				if err != nil || te == nil {
+					continue
+				}
+				ids, err := exp.lookupLeasesByToken(ctx, te)
+				if err != nil {
+					continue
+				}
+				found := false
+				for _, id := range ids {
+					if id == l.LeaseID {
+						found = true
+					}
+				}
+				if !found {
+					return "lease-without-index", fmt.Sprintf("lease record %s (child namespace, token of namespace %q) has no entry in its token's lease index: %v", l.LeaseID, te.NamespaceID, ids)
+				}
+			}
 		}
 	}
 	w.hub.mu.Lock()
